@@ -355,6 +355,17 @@ func c18Valid(c *core.Ctx) {
 				}
 			}
 		}
+		// several validated fields on one component (struct-typed by value / by pointer and scalar ones,
+		// in both declaration orders): start-up fails iff any of them violates its constraints
+		for _, first := range []string{"struct", "pstruct", "scalar"} {
+			for _, second := range []string{"struct", "pstruct", "scalar"} {
+				for _, bad := range []string{"none", "first", "second", "both"} {
+					if !yield(c18ValCase{Kind: "pair", Typ: first + "|" + second, Text: bad}) {
+						return
+					}
+				}
+			}
+		}
 		for _, a := range []string{"", "abc", "abcdef"} {
 			for _, n := range []string{"0", "3", "7"} {
 				for _, k := range []string{"required|required", "min=3|gt=0", "len=3|max=5", "omitempty,max=3|ne=3"} {
@@ -442,6 +453,32 @@ func c18Valid(c *core.Ctx) {
 				}
 			}
 			h = reflect.New(reflect.StructOf([]reflect.StructField{{Name: "X", Type: ft, Tag: reflect.StructTag(tag)}}))
+		case "pair":
+			kinds := strings.SplitN(cs.Typ, "|", 2)
+			inner := reflect.StructOf([]reflect.StructField{{Name: "N", Type: types["int"], Tag: `yaml:"n" validate:"min=3"`}})
+			var fields []reflect.StructField
+			for i, k := range kinds {
+				invalid := cs.Text == "both" || (i == 0 && cs.Text == "first") || (i == 1 && cs.Text == "second")
+				n := 5
+				if invalid {
+					n = 1
+				}
+				reject = reject || invalid
+				name := fmt.Sprintf("F%d", i)
+				switch k {
+				case "struct":
+					doc += fmt.Sprintf("s%d:\n  n: %d\n", i, n)
+					fields = append(fields, reflect.StructField{Name: name, Type: inner, Tag: reflect.StructTag(fmt.Sprintf(`prefix:"s%d,validate"`, i))})
+				case "pstruct":
+					doc += fmt.Sprintf("s%d:\n  n: %d\n", i, n)
+					fields = append(fields, reflect.StructField{Name: name, Type: reflect.PointerTo(inner), Tag: reflect.StructTag(fmt.Sprintf(`prefix:"s%d,validate"`, i))})
+				default:
+					doc += fmt.Sprintf("v%d: %d\n", i, n)
+					fields = append(fields, reflect.StructField{Name: name, Type: types["int"], Tag: reflect.StructTag(fmt.Sprintf(`value:"${v%d},validate=min=3"`, i))})
+				}
+			}
+			bound = cs.Typ + " with " + cs.Text + " violating min=3"
+			h = reflect.New(reflect.StructOf(fields))
 		case "nested":
 			ptr := strings.HasSuffix(cs.Cons, "|ptr")
 			cons := strings.TrimSuffix(cs.Cons, "|ptr")
